@@ -720,9 +720,20 @@ class Gen:
         return {"cfg": cfg, "steps": self.steps, "flavour": flavour}
 
 
-def gen_history(rng, level, nsteps=None, nhosts=1, tokio=0.0, syncs=0.25, crash=0.0, setup_sync=None, stale=0.1):
+def gen_history(rng, level, nsteps=None, nhosts=1, tokio=0.0, syncs=0.25, crash=0.0, setup_sync=None, stale=0.1,
+                sync_prob=0.0, block_size=None, latency=False):
     g = Gen(rng, level, nhosts=nhosts, tokio=tokio, syncs=syncs, crash=crash, setup_sync=setup_sync, stale=stale)
-    return g.build(nsteps or rng.randrange(8, 26), "F%d" % level)
+    c = g.build(nsteps or rng.randrange(8, 26), "F%d" % level)
+    c["cfg"]["sync_prob"] = sync_prob
+    c["cfg"]["block_size"] = block_size
+    c["cfg"]["latency"] = latency
+    if crash:
+        c["flavour"] += "+crash"
+    if sync_prob:
+        c["flavour"] += "+coin"
+    if block_size:
+        c["flavour"] += "+torn"
+    return c
 
 
 def with_syncs_everywhere(case, rng):
